@@ -4,6 +4,8 @@ import (
 	"bytes"
 	"encoding/binary"
 	"fmt"
+	"runtime"
+	"runtime/debug"
 	"strings"
 	"time"
 
@@ -80,6 +82,7 @@ func C06(c *vk.Ctx) {
 	c.Watchdog(30*time.Second, "C06/does-not-terminate")
 	rev := 54460
 	quick := c.Quick()
+	hyg := 0
 	eval := func(e reg.Entry, id string, b []byte, group string) {
 		if c.Resuming(id) {
 			return
@@ -107,6 +110,16 @@ func C06(c *vk.Ctx) {
 		}
 		c.Eval(group, 2)
 		c.DistinctN(2)
+		// Mutants with large (capped) row counts leave hundreds of MiB of garbage behind;
+		// give it back so that the address-space limit measures the case at hand and not
+		// the worker's history.
+		if hyg++; hyg%256 == 0 {
+			var ms runtime.MemStats
+			runtime.ReadMemStats(&ms)
+			if ms.HeapSys-ms.HeapReleased > 512<<20 {
+				debug.FreeOSMemory()
+			}
+		}
 	}
 	sel := int64(0)
 	for ei, e := range regEntries(c) {
